@@ -6,6 +6,7 @@ from .. import proto
 from ..astutil import dotted, const, unparse, walk_shallow
 from ..cfg import build_cfg, repo_noreturn
 from ..model import AnalysisError
+from .. import pat
 from .c18 import type_id_protocol
 
 
@@ -19,21 +20,23 @@ def read_protocol(ctx):
     g = gens.get('ReadStmt')
     if g is None:
         raise AnalysisError('anchor vanished: generator for ReadStmt')
-    es = proto.emit_sequence(g.node.body)
+    es = proto.emit_sequence(g.node.body, fn=g.node)
     construct = f'{g.file}:gen_read_stmt'
     ctx.instance(rule, construct, sample={'sequence': es})
     ok = len(es) == 1 and es[0][0] == 'loop' and \
         es[0][1] == 'node.var_list' and \
         [x[0] for x in es[0][2]] == ['push', 'io', 'write'] and \
-        es[0][2][0][1:] == ('INTEGER', 'var.type.type_id') and \
-        es[0][2][1][1:] == ('data', 'read') and es[0][2][2][1] == 'var'
+        es[0][2][0][1:] == ('INTEGER',
+                            '<<for:node.var_list>>.type.type_id') and \
+        es[0][2][1][1:] == ('data', 'read') and \
+        es[0][2][2][1] == '<<for:node.var_list>>'
     if not ok:
         ctx.finding(rule, construct,
                     f'READ emission is {es}; expected, per variable in list '
                     f'order: push% var.type.type_id; io data,read; store to '
                     f'var', g.file, g.line)
     r = repo.func('qvm.machine', 'DataDevice._exec_read')
-    ps = proto.pop_sequence(r.node.body)
+    ps = proto.pop_sequence(r.node.body, fn=r.node)
     ctx.instance(rule, f'{r.file}:DataDevice._exec_read',
                  sample={'pops': ps})
     if [p[:2] for p in ps] != [('pop', 'INTEGER')]:
@@ -102,9 +105,8 @@ def restore_operand(ctx):
                         f'non-negative part index', g.file, s.lineno)
     # consumer: data_part := popped INTEGER, idx := 0
     r = repo.func('qvm.machine', 'DataDevice._exec_restore')
-    txt = unparse(r.node)
-    ok = 'self.data_part = part_idx' in txt and 'self.data_idx = 0' in txt \
-        and 'part_idx = self.cpu.pop(CellType.INTEGER)' in txt
+    ok = pat.has('_P = self.cpu.pop(CellType.INTEGER)\n'
+                 'self.data_part = _P\nself.data_idx = 0', r.node)
     ctx.instance(rule, f'{r.file}:DataDevice._exec_restore')
     if not ok:
         ctx.finding(rule, f'{r.file}:DataDevice._exec_restore',
@@ -112,7 +114,7 @@ def restore_operand(ctx):
                     'index and data_idx to 0', r.file, r.line)
     # label -> index uses the same key the data was registered under
     gi = repo.func('qbee.qvm_codegen', 'QvmCode.get_data_label_index')
-    ok = 'list(self._data.keys()).index(label)' in unparse(gi.node)
+    ok = pat.has('return list(self._data.keys()).index(label)', gi.node)
     ctx.instance(rule, f'{gi.file}:QvmCode.get_data_label_index')
     if not ok:
         ctx.finding(rule, f'{gi.file}:QvmCode.get_data_label_index',
@@ -126,16 +128,22 @@ def read_cursor(ctx, r):
              'and moves to the next part when the part is exhausted; '
              'IndexError (past the last item) becomes a device error and '
              'conversion failures become BAD_ARG_TYPE')
-    txt = unparse(r.node)
     checks = {
-        'reads-current': 'self.cpu.module.data[self.data_part]'
-                         '[self.data_idx]' in txt,
-        'advance': 'self.data_idx += 1' in txt,
-        'next-part': 'self.data_part += 1' in txt and
-                     'self.data_idx = 0' in txt,
-        'exhausted-test': 'self.data_idx >= len(self.cpu.module.data'
-                          '[self.data_part])' in txt,
-        'conversion-errors': 'except (ValueError, TypeError)' in txt,
+        'reads-current': pat.has(
+            'self.cpu.module.data[self.data_part][self.data_idx]', r.node),
+        'advance': pat.has('self.data_idx += 1', r.node),
+        'next-part': pat.has(
+            'if self.data_idx >= len(self.cpu.module.data[self.data_part])'
+            ':\n    self.data_idx = 0\n    self.data_part += 1', r.node),
+        'exhausted-test': pat.has(
+            'self.data_idx >= len(self.cpu.module.data[self.data_part])',
+            r.node),
+        'conversion-errors': any(
+            isinstance(h, ast.ExceptHandler) and
+            isinstance(h.type, ast.Tuple) and
+            {dotted(e) for e in h.type.elts} >= {'ValueError'} and
+            pat.has('self._device_error(...)', h)
+            for h in ast.walk(r.node)),
     }
     for k, ok in checks.items():
         ctx.instance(rule, f'{r.file}:DataDevice._exec_read:{k}')
@@ -163,16 +171,13 @@ def read_cursor(ctx, r):
     arms = {}
     for n in ast.walk(r.node):
         if isinstance(n, ast.If) and isinstance(n.test, ast.Compare) and \
-                dotted(n.test.left) == 'data_type':
-            arms[const(n.test.comparators[0])] = unparse(
-                ast.Module(body=n.body, type_ignores=[]))
-    for k, dflt in ((1, '0 if s == Empty.value'), (2, '0 if s == '
-                                                      'Empty.value'),
-                    (3, '0.0 if s == Empty.value'),
-                    (4, '0.0 if s == Empty.value'),
-                    (5, "'' if s == Empty.value")):
+                dotted(n.test.left) == proto.int_dispatch_var(r.node):
+            arms[const(n.test.comparators[0])] = ast.Module(
+                body=n.body, type_ignores=[])
+    for k, dflt in ((1, '0'), (2, '0'), (3, '0.0'), (4, '0.0'), (5, "''")):
         ctx.instance(rule, f'{r.file}:DataDevice._exec_read:empty[{k}]')
-        if dflt not in arms.get(k, ''):
+        if k not in arms or not pat.has(
+                f'{dflt} if _S == Empty.value else __', arms[k]):
             ctx.finding(rule, f'{r.file}:DataDevice._exec_read:empty[{k}]',
                         f'arm {k} does not read an empty item as its zero '
                         f'value', r.file, r.line)
@@ -186,8 +191,8 @@ def source_order(ctx):
              'are iterated without reordering by init_code, __bytes__ and '
              'the loader')
     p = repo.func('qbee.compiler', 'Pass1.process_data_pre')
-    txt = unparse(p.node)
-    ok = 'self.compilation.data[self._last_label].extend(node.items)' in txt
+    ok = pat.has('self.compilation.data[self._last_label].extend('
+                 'node.items)', p.node)
     ctx.instance(rule, f'{p.file}:Pass1.process_data_pre')
     if not ok:
         ctx.finding(rule, f'{p.file}:Pass1.process_data_pre',
@@ -236,7 +241,7 @@ def source_order(ctx):
                     ad.line)
     # toplevel key
     ic = repo.func('qbee.qvm_codegen', 'QvmCodeGen.init_code')
-    ok = "data_label = '_toplevel_data'" in unparse(ic.node)
+    ok = pat.has("if _L is None:\n    _L = '_toplevel_data'", ic.node)
     ctx.instance(rule, f'{ic.file}:QvmCodeGen.init_code:toplevel')
     if not ok:
         ctx.finding(rule, f'{ic.file}:QvmCodeGen.init_code:toplevel',
@@ -262,7 +267,7 @@ def run(ctx):
     ctx.not_decided = ['tokenizer behaviour on every DATA text; conversion '
                        'results (int()/float())']
     r = read_protocol(ctx)
-    type_id_protocol(ctx, 'C15', r, r.node, 'data_type',
+    type_id_protocol(ctx, 'C15', r, r.node, None,
                      f'{r.file}:DataDevice._exec_read')
     restore_operand(ctx)
     read_cursor(ctx, r)
